@@ -1023,9 +1023,17 @@ func (in *Interp) concretizeIndex(g *Goroutine, t *Term, n int, signed bool, wha
 	}
 	conds := make([]*Term, 0, n+1)
 	for i := 0; i < n; i++ {
+		if w < 64 && uint64(i) > mask(w) {
+			conds = append(conds, in.tt.False)
+			continue
+		}
 		conds = append(conds, in.tt.Eq(t, in.tt.Const(w, uint64(i))))
 	}
-	conds = append(conds, in.tt.Not(in.tt.Cmp(OpUlt, t, in.tt.Const(w, uint64(n)))))
+	if w < 64 && uint64(n) > mask(w) {
+		conds = append(conds, in.tt.False) // the index type cannot reach n
+	} else {
+		conds = append(conds, in.tt.Not(in.tt.Cmp(OpUlt, t, in.tt.Const(w, uint64(n)))))
+	}
 	k := in.choose(conds)
 	if k == n {
 		in.goPanic(g, "bounds", fmt.Sprintf("index out of range with length %d (%s)", n, what), nil)
@@ -1114,6 +1122,26 @@ func (in *Interp) execIndexAddr(g *Goroutine, fr *Frame, x *ssa.IndexAddr) {
 	case Ptr:
 		if b.c == nil {
 			in.goPanic(g, "nil", "nil pointer dereference (array index)", nil)
+			return
+		}
+		if n := arrLen(b.c); !idx.IsConst() && n > 1 && n <= 1024 && b.c.big == nil && in.onlyLoaded(x) {
+			w := idx.sort.W
+			if !(w < 64 && uint64(n) > mask(w)) {
+				oob := in.tt.Not(in.tt.Cmp(OpUlt, idx, in.tt.Const(w, uint64(n))))
+				if in.branch(oob) {
+					in.goPanic(g, "bounds", fmt.Sprintf("index out of range with length %d (array)", n), nil)
+					return
+				}
+			}
+			sp := SymPtr{}
+			for i := 0; i < n; i++ {
+				if w < 64 && uint64(i) > mask(w) {
+					break
+				}
+				sp.cells = append(sp.cells, in.elem(b.c, i))
+				sp.conds = append(sp.conds, in.tt.Eq(idx, in.tt.Const(w, uint64(i))))
+			}
+			in.set(fr, x, sp)
 			return
 		}
 		i := in.concretizeIndex(g, idx, arrLen(b.c), signed, "array")
